@@ -24,11 +24,14 @@ static void emit_case_marker(const char *why)
 }
 
 /* called by the ASan runtime when it starts to report an error */
-void __asan_on_error(void) { emit_case_marker("asan"); fflush(stdout); }
+static int finished;
+/* a dying process still reports what its monitors saw up to now */
+void __asan_on_error(void) { emit_case_marker("asan"); if (!finished) vp_finish(); fflush(stdout); }
 
 static void on_fatal(int sig)
 {
 	emit_case_marker(sig == SIGABRT ? "abort" : sig == SIGSEGV ? "segv" : sig == SIGBUS ? "bus" : "signal");
+	if (!finished) vp_finish();
 	fflush(stdout);
 	signal(sig, SIG_DFL);
 	raise(sig);
@@ -139,6 +142,7 @@ void vp_sample(const char *fmt, ...)
 void vp_finish(void)
 {
 	FILE *f = stdout;
+	finished = 1;
 	fprintf(f, "S {\"from\":%ld,\"to\":%ld,\"nviol\":%d,\"counters\":{", vp.case_from, vp.case_to, vp.nviol);
 	for (int i = 0; i < vp.ncnt; i++) {
 		if (i) fputc(',', f);
